@@ -8,25 +8,14 @@
 (* data, statistics computed in each admissible order; for BYTE_ARRAY one with the empty   *)
 (* string and a 300-byte value.  Every case carries the probes (all domain values + the    *)
 (* specials) so that all order types of (probe, min, max) occur for every group.           *)
-EXTENDS RefWriter, ParquetFile, Stats, TLC, Json
+EXTENDS RefWriter, ParquetFile, Stats, MC_StatsDom, TLC, Json
 CONSTANTS Types, Modes, Layouts
 VARIABLE st
 
-\* ---- ascending 7-value domains (canonical order), then two specials (index 8, 9)
-D1 == << <<0,0,0,128>>, <<254,255,255,255>>, <<255,255,255,255>>, <<0,0,0,0>>, <<1,0,0,0>>, <<0,1,0,0>>, <<255,255,255,127>> >>
-D2 == << <<0,0,0,0,0,0,0,128>>, <<255,255,255,255,255,255,255,255>>, <<0,0,0,0,0,0,0,0>>, <<1,0,0,0,0,0,0,0>>,
-         <<0,1,0,0,0,0,0,0>>, <<0,0,0,0,1,0,0,0>>, <<255,255,255,255,255,255,255,127>> >>
-D4 == << <<0,0,128,255>>, <<0,0,192,191>>, <<0,0,0,128>>, <<0,0,0,0>>, <<1,0,0,0>>, <<0,0,192,63>>, <<0,0,128,127>>,
-         <<0,0,192,127>>, <<1,0,192,255>> >>
-D5 == << <<0,0,0,0,0,0,240,255>>, <<0,0,0,0,0,0,248,191>>, <<0,0,0,0,0,0,0,128>>, <<0,0,0,0,0,0,0,0>>, <<1,0,0,0,0,0,0,0>>,
-         <<0,0,0,0,0,0,248,63>>, <<0,0,0,0,0,0,240,127>>, <<0,0,0,0,0,0,248,127>>, <<1,0,0,0,0,0,248,255>> >>
-D6 == << <<0>>, <<0,255>>, <<127>>, <<127,0>>, <<128>>, <<255>>, <<255,0>>, <<>>, [i \in 1..300 |-> 120] >>
-D7 == << <<0,0>>, <<0,127>>, <<127,0>>, <<127,255>>, <<128,0>>, <<255,0>>, <<255,255>> >>
-D(t) == CASE t = 1 -> D1 [] t = 2 -> D2 [] t = 4 -> D4 [] t = 5 -> D5 [] t = 6 -> D6 [] t = 7 -> D7
 TLen(t) == IF t = 7 THEN 2 ELSE 0
 
 \* ---- layouts: per row group the rows as domain indices, 0 = null
-Layout(k) == CASE k = 1 -> << <<2, 3, 4>>, <<4, 0, 6>>, <<7>> >>
+RgLayout(k) == CASE k = 1 -> << <<2, 3, 4>>, <<4, 0, 6>>, <<7>> >>
                [] k = 2 -> << <<6, 7>>, <<1, 2, 0>>, <<3, 3>> >>
                [] k = 3 -> << <<1, 7>>, <<4>> >>
                [] k = 4 -> << <<3, 5>>, <<5, 3>>, <<3, 0, 5>> >>
@@ -54,7 +43,7 @@ LeafV(t) == [type |-> t, tlen |-> TLen(t), maxDef |-> 1, maxRep |-> 0, path |-> 
 \* decoy values: 1000 + g (so a reader that looks at the wrong column or group answers differently)
 KVal(g) == <<(232 + g) % 256, 3, 0, 0>>
 
-Rows(t, k, g) == Layout(k)[g]
+Rows(t, k, g) == RgLayout(k)[g]
 DataOf(t, k, g) == LET r == SelectSeq(Rows(t, k, g), LAMBDA i : i # 0) IN [j \in 1..Len(r) |-> D(t)[r[j]]]
 NullsOf(t, k, g) == Len(SelectSeq(Rows(t, k, g), LAMBDA i : i = 0))
 CellV(t, k, g, mode, o) ==
@@ -70,7 +59,7 @@ WStat(cell) == [has |-> cell.st.has, useOld |-> cell.st.useOld, useNew |-> cell.
 Desc(t, k, mode, o) ==
     [elements |-> << Root(2), Leaf(<<107>>, 1, 0, 0), Leaf(<<118>>, t, 1, TLen(t)) >>,
      createdBy |-> <<114, 101, 102>>, extras |-> FALSE, sty |-> Sty,
-     rgs |-> [g \in 1..Len(Layout(k)) |->
+     rgs |-> [g \in 1..Len(RgLayout(k)) |->
                 LET n == Len(Rows(t, k, g))
                 IN [numRows |-> n,
                     cols |-> << MkChunk(LeafK, [defs |-> [i \in 1..n |-> 0], reps |-> [i \in 1..n |-> 0], vals |-> CellK(t, k, g).data],
@@ -82,8 +71,8 @@ Desc(t, k, mode, o) ==
 \* the reference reader finds in the file exactly the content and the statistics that were put in
 SelfOk(t, k, mode, o, bs) ==
     LET f == ParseFile(bs)
-    IN /\ f.ok /\ Len(f.rgs) = Len(Layout(k))
-       /\ \A g \in 1..Len(Layout(k)) :
+    IN /\ f.ok /\ Len(f.rgs) = Len(RgLayout(k))
+       /\ \A g \in 1..Len(RgLayout(k)) :
              LET ch == f.rgs[g].cols[2]
                  c == CellV(t, k, g, mode, o)
              IN /\ ChunkVals(ch) = c.data /\ ch.numValues = c.nvals
@@ -107,6 +96,6 @@ Emit == st.lvl = 2 =>
     IN PrintT(ToJson([t |-> st.t, tlen |-> TLen(st.t), layout |-> st.k, mode |-> st.mode, order |-> st.o,
                       bytes |-> bs, selfok |-> SelfOk(st.t, st.k, st.mode, st.o, bs),
                       cols |-> << [t |-> 1, tlen |-> 0], [t |-> st.t, tlen |-> TLen(st.t)] >>,
-                      rgs |-> [g \in 1..Len(Layout(st.k)) |-> << CellK(st.t, st.k, g), CellV(st.t, st.k, g, st.mode, st.o) >>],
+                      rgs |-> [g \in 1..Len(RgLayout(st.k)) |-> << CellK(st.t, st.k, g), CellV(st.t, st.k, g, st.mode, st.o) >>],
                       probes |-> D(st.t)]))
 =============================================================================
